@@ -24,6 +24,9 @@ import (
 
 const Base = "https://ca.verif.test"
 
+// MaxRequestsPerCall bounds the requests one public call may send (scripts are at most 7 replies long).
+const MaxRequestsPerCall = 50
+
 // Event is one line of the recorded trace (see AcmeNonce_Trace.tla).
 type Event map[string]any
 
@@ -32,9 +35,10 @@ type opKey struct{}
 // Op is one public client call, identified in requests through its context.
 type Op struct {
 	ID       int
-	Budget   int // RetryBackoff(n) > 0 iff n <= Budget
-	Phases   int // number of consecutive post() calls the call makes
-	CancelAt int // cancel the context during the CancelAt-th back-off (1-based), 0 = never
+	Budget   int           // RetryBackoff(n) > 0 iff n <= Budget
+	Phases   int           // number of consecutive post() calls the call makes
+	CancelAt int           // cancel the context during the CancelAt-th back-off (1-based), 0 = never
+	StopVal  time.Duration // the NON-POSITIVE value RetryBackoff returns once the budget is used up (0 or negative)
 	Name     string
 
 	Ctx    context.Context
@@ -47,6 +51,7 @@ type Op struct {
 	CancelTime time.Time // when the context was cancelled (zero if not)
 	Returned   time.Time
 	Refused    []string // requests attempted with a cancelled context (never reached the server)
+	Unbounded  bool     // the call exceeded MaxRequestsPerCall
 }
 
 func OpFrom(ctx context.Context) *Op {
@@ -83,6 +88,9 @@ type Server struct {
 	BackoffDelay       time.Duration
 	CancelSleep        time.Duration // back-off returned when the context is cancelled SlowDelay into the sleep
 	Capture            bool
+	DirChoose          func(n int) string // reply kind of the n-th GET of the directory (nil: always ok)
+	DirGets            int
+	RetryAfter         func() string // Retry-After value of 429 replies (nil: "1"; "" = header absent)
 	Captured           []Captured
 	busy               map[int]bool // operation ids in use (an id is reused after its call returned)
 }
@@ -178,7 +186,7 @@ func (s *Server) Backoff(n int, r *http.Request, resp *http.Response) time.Durat
 	s.mu.Unlock()
 	switch how {
 	case "stop":
-		return 0
+		return op.StopVal // zero or negative: both must end the retries
 	case "cancel":
 		// the context is cancelled long before the sleep would end
 		time.AfterFunc(s.SlowDelay, func() { s.cancelOp(op) })
@@ -207,9 +215,33 @@ func (s *Server) RoundTrip(req *http.Request) (*http.Response, error) {
 	op := OpFrom(ctx)
 	path := strings.TrimPrefix(req.URL.String(), Base)
 	if req.Method == "GET" && path == "/dir" {
-		// discovery is set-up, not part of the scripts
+		// discovery is set-up, not part of the scripts -- unless DirChoose scripts it (unsigned GET retry loop)
 		if err := ctx.Err(); err != nil {
 			return nil, err
+		}
+		if s.DirChoose != nil {
+			s.mu.Lock()
+			s.DirGets++
+			n := s.DirGets
+			s.mu.Unlock()
+			if n > MaxRequestsPerCall {
+				return nil, errors.New("verif: request budget of the call exhausted")
+			}
+			if k := s.DirChoose(n); k != "ok" {
+				h := http.Header{"Content-Type": {"application/problem+json"}, "X-Verif-Serial": {strconv.Itoa(n)}}
+				code := 503
+				if k == "e429" {
+					code = 429
+					ra := "1"
+					if s.RetryAfter != nil {
+						ra = s.RetryAfter()
+					}
+					if ra != "" {
+						h.Set("Retry-After", ra)
+					}
+				}
+				return resp(req, code, h, problem("serverInternal", code, n)), nil
+			}
 		}
 		h := http.Header{"Content-Type": {"application/json"}}
 		s.mu.Lock()
@@ -239,6 +271,17 @@ func (s *Server) RoundTrip(req *http.Request) (*http.Response, error) {
 		s.mu.Unlock()
 		return nil, err
 	}
+	s.mu.Lock()
+	if op.Posts+op.Heads >= MaxRequestsPerCall {
+		// judged by COUNT, never by time: no bounded retry policy sends this many requests for one call
+		if !op.Unbounded {
+			op.Unbounded = true
+			s.Problems = append(s.Problems, fmt.Sprintf("retry-unbounded: %s sent more than %d requests for one call (back-off stop value %v)", op.Name, MaxRequestsPerCall, op.StopVal))
+		}
+		s.mu.Unlock()
+		return nil, errors.New("verif: request budget of the call exhausted")
+	}
+	s.mu.Unlock()
 	switch req.Method {
 	case "HEAD":
 		s.mu.Lock()
@@ -334,7 +377,13 @@ func (s *Server) reply(req *http.Request, op *Op, head bool, kind, path string, 
 		return resp(req, 503, h, problem("serverInternal", 503, serial)), nil
 	case "e429":
 		h.Set("Content-Type", "application/problem+json")
-		h.Set("Retry-After", "1")
+		ra := "1"
+		if s.RetryAfter != nil {
+			ra = s.RetryAfter()
+		}
+		if ra != "" {
+			h.Set("Retry-After", ra)
+		}
 		return resp(req, 429, h, problem("rateLimited", 429, serial)), nil
 	case "e403":
 		h.Set("Content-Type", "application/problem+json")
@@ -461,7 +510,11 @@ func Classify(marker string, err error) Result {
 // Run performs one public call as operation op and logs call/return.
 func (s *Server) Run(op *Op, f func(ctx context.Context) (string, error)) Result {
 	s.mu.Lock()
-	s.logf(Event{"ev": "call", "o": op.ID, "b": op.Budget, "p": op.Phases})
+	sv := "zero"
+	if op.StopVal < 0 {
+		sv = "neg"
+	}
+	s.logf(Event{"ev": "call", "o": op.ID, "b": op.Budget, "p": op.Phases, "sv": sv})
 	s.mu.Unlock()
 	marker, err := f(op.Ctx)
 	res := Classify(marker, err)
